@@ -68,10 +68,13 @@ struct Case
 {
     std::vector<EndpointScript> eps;
     std::vector<uint8_t> schedule;
+    uint32_t idleGap{0};  // > 0: the first time a message is left open, that many unsegmented frames of a foreign endpoint pass, then a
+                          // complete two-segment message of it ("any interleaving" has no length limit)
     void io(Ar& a)
     {
         a.vec("eps", eps);
         a.numvec("schedule", schedule);
+        a.optionalNum("idleGap", idleGap);
     }
 };
 
@@ -242,6 +245,7 @@ static Verdict runCase(const Case& c, Info& info)
     bool contextSwitch = false;
     // open-message tracking for classification
     std::vector<bool> open(streams.size(), false);
+    bool gapDone = false;
     for (size_t i = 0; i < order.size(); ++i)
     {
         size_t e = order[i].first;
@@ -271,6 +275,36 @@ static Verdict runCase(const Case& c, Info& info)
         {
             uint8_t seg = (bf.bytes[8 + 12] >> 2) & 3;
             open[e] = (seg == 1 || seg == 2);
+        }
+        if (c.idleGap && !gapDone && open[e])
+        {
+            gapDone = true;
+            // a foreign endpoint that is none of the scripted ones
+            uint16_t fdev = 0x7A7A;
+            uint8_t fstream = 0x7A;
+            for (const auto& ep : c.eps)
+                if (ep.dev == fdev && ep.stream == fstream)
+                    fdev = 0x7A7B;
+            uint16_t fseq = 100;
+            for (uint32_t g = 0; g < c.idleGap + 2; ++g)
+            {
+                wire::MsgHdr mh;
+                mh.timestamp = g;
+                mh.idWord = 9;
+                mh.payloadType = 0x20;
+                uint8_t seg = g < c.idleGap ? wire::kSegNone : g == c.idleGap ? wire::kSegFirst : wire::kSegLast;
+                mh.flags = static_cast<uint8_t>(seg << 2);
+                Bytes chunk = fillBytes(g, 5);
+                mh.length = static_cast<uint16_t>(chunk.size());
+                Bytes frame;
+                wire::CmpHdr h{1, 0, fdev, wire::kMtData, fstream, fseq++};
+                wire::putCmpHdr(frame, h);
+                wire::putBytes(frame, wire::buildMessage(mh, chunk));
+                auto fgot = decodeOwned(dec, frame);
+                auto fexp = ref.feed(frame);
+                VF_CHECK(fgot.size() == fexp.size(), "foreign frame " << g << " of the idle gap: decoder returned " << fgot.size() << " packets, expected " << fexp.size());
+            }
+            info.tag("idle_gap_of_foreign_frames_inside_open_message");
         }
     }
     if (contextSwitch)
@@ -306,6 +340,9 @@ static rc::Gen<Case> genCase(int tier)
 {
     return rc::gen::exec([tier]() {
         Case c;
+        // one case in ten: a long stretch of foreign traffic inside the first open message
+        if (*range<int>(0, 9) == 0)
+            c.idleGap = *rc::gen::weightedOneOf<uint32_t>({{2, range<uint32_t>(17, 300)}, {2, range<uint32_t>(1025, 1400)}, {1, range<uint32_t>(4000, 5000)}});
         int nEp = *range<int>(1, 4);
         // alphabet chosen so that same-device/other-stream and same-stream/other-device pairs occur
         static const std::pair<uint16_t, uint8_t> alphabet[] = {{1, 0},      {1, 5},      {2, 0},      {2, 5},      {0xFFFF, 0xFF}, {0, 0},
